@@ -49,6 +49,10 @@ def desc_fields (n, v):
   if v == 3: return (n, b"eth%d" % n, _mac(n, 0), W.OFPPC_PORT_DOWN, W.OFPPS_LINK_DOWN)   # same identity, link down
   raise ValueError(v)
 
+def expected (f):
+  """What a description sent as f must read as: the 16-byte name field is a C string (it ends at its first NUL)."""
+  return (f[0], f[1].split(b"\x00", 1)[0], f[2], f[3], f[4])
+
 def desc_wire (f):
   return W.phy_port(f[0], f[2], f[1], config=f[3], state=f[4], curr=0x82, advertised=0, supported=0xbf, peer=0)
 
@@ -57,12 +61,19 @@ ALL_HW = sorted(set(desc_fields(n, v)[2] for n in NUMS for v in range(N_DESC))) 
 ALL_NUMS = [0, 1, 2, 3, 4, 5, W.OFPP_LOCAL]
 
 
-def port_ops (ndesc, mode="up"):
+def port_ops (ndesc, mode="up", phase=3, feats=()):
   o = []
   for n in NUMS:
     for v in range(ndesc):
       o.append(("add", n, v)); o.append(("mod", n, v))
     o.append(("del", n))
+  if mode == "hs":
+    # the handshake's own messages are operations: notifications can arrive at EVERY point of it (before the hello,
+    # before the features reply, before a repeated features reply, before the barrier reply, afterwards)
+    if phase == 0: return [("hello",)] + o
+    if phase == 1: return [("feat", f) for f in feats] + o
+    if phase == 2: return [("feat", f) for f in feats] + [("barrier",)] + o
+    return o + [("read",)]
   # reading the whole view is an operation of its own: an implementation may keep caches that reads populate, so
   # "notification, read, notification" and "notification, notification" can be different histories
   if mode in ("up", "refeat"): o.append(("read",))
@@ -83,6 +94,8 @@ def _canon (x, memo, depth=0):
   cache is part of the state key."""
   if x is None or isinstance(x, (int, str, bytes, bool, float)): return x
   if hasattr(x, "port_no") and hasattr(x, "hw_addr"): return ("port",) + _real_port(x)
+  if hasattr(x, "reason") and hasattr(x, "desc") and hasattr(x.desc, "port_no"):
+    return ("port-status", x.reason, ("port",) + _real_port(x.desc))
   if hasattr(x, "toRaw"): return ("addr", x.toRaw())
   if depth > 8: return ("deep", type(x).__name__)
   if isinstance(x, tuple): return ("tuple", [_canon(e, memo, depth + 1) for e in x])
@@ -96,7 +109,30 @@ def _canon (x, memo, depth=0):
   if isinstance(x, list): return ("list", n, [_canon(e, memo, depth + 1) for e in x])
   if type(x).__name__ == "PortCollection":
     return ("coll", n, [(k, _canon(v, memo, depth + 1)) for k, v in sorted(vars(x).items())])
+  if getattr(x, "__self__", None) is not None and callable(x):           # bound method: its object may hold state
+    return ("method", getattr(x, "__name__", "?"), _canon(x.__self__, memo, depth + 1))
+  if type(x).__module__ == "pox.openflow.of_01" and hasattr(x, "__dict__") and type(x).__name__ != "Connection":
+    return ("of01", type(x).__name__, n, [(k, _canon(v, memo, depth + 1)) for k, v in sorted(vars(x).items())])
   return ("obj", type(x).__name__)
+
+
+def _mentions_port (c):
+  if isinstance(c, (tuple, list)):
+    if c and c[0] in ("port", "port-status"): return True
+    return any(_mentions_port(e) for e in c)
+  return False
+
+
+def hidden_port_state (con):
+  """Every attribute of the connection (and of the handler object behind con.handlers), whatever it is called,
+  that holds port descriptions or port-status messages - other than the two collections themselves.  Part of the
+  state key while the handshake is still running: a buffer that survives a later handshake step is hidden state."""
+  out = []
+  for name, v in sorted(vars(con).items()):
+    if name in ("ports", "original_ports", "features"): continue
+    c = _canon(v, {})
+    if _mentions_port(c): out.append((name, c))
+  return out
 
 
 def _site (exc):
@@ -118,76 +154,160 @@ def _real_port (p):
   return (p.port_no, name, hw, p.config, p.state)
 
 
+# ---- listeners with faults (halting / raising) at every event ----------------------------------
+PORT_EVENTS = ("PortStatus", "ConnectionUp", "FeaturesReceived", "BarrierIn", "ConnectionHandshakeComplete")
+FAULTS = ("halt", "halt-attr", "raise")
+
+def _faulty (fault, log, tag, occ=0):
+  """A listener that halts the event (by return value / by setting event.halt) or raises, on every invocation
+  (occ=0) or only on its occ-th one."""
+  from pox.lib.revent import EventHalt
+  n = [0]
+  def h (e):
+    n[0] += 1
+    if occ and n[0] != occ: return None
+    log.append(tag + (type(e).__name__,))
+    if fault == "halt": return EventHalt
+    if fault == "halt-attr":
+      e.halt = True; return None
+    if fault == "raise": raise RuntimeError("listener fault")
+    return None
+  return h
+
+def install_listeners (cs, con, spec, log):
+  """spec: iterable of (level 'nexus'|'con', event class name, fault[, occurrence]).  Installed AFTER the recording
+  listeners, so those still see an event that a faulty listener halts."""
+  for t in spec:
+    level, name, fault = t[0], t[1], t[2]
+    occ = t[3] if len(t) > 3 else 0
+    src = cs.nexus if level == "nexus" else con
+    ev = getattr(cs.ofm, name)
+    if src._eventMixin_events is not True and ev not in src._eventMixin_events: continue
+    src.addListener(ev, _faulty(fault, log, (level, name, fault), occ))
+
+def port_listener_configs (cfg):
+  """name -> spec.  Combined configurations (every event at once) in both tiers, every single
+  (level, event, fault) on its own in the thorough tier."""
+  ev_n = PORT_EVENTS; ev_c = tuple(e for e in PORT_EVENTS if e != "ConnectionHandshakeComplete")
+  out = [("nexus-halt-all", tuple(("nexus", e, "halt") for e in ev_n)),
+         ("nexus-raise+con-halt-all", tuple(("nexus", e, "raise") for e in ev_n) + tuple(("con", e, "halt-attr") for e in ev_c)),
+         ("con-raise-all", tuple(("con", e, "raise") for e in ev_c))]
+  if not cfg.quick:
+    for level, evs in (("nexus", ev_n), ("con", ev_c)):
+      for e in evs:
+        for f in FAULTS: out.append(("%s-%s-%s" % (level, e, f), ((level, e, f),)))
+  return out
+
+
 class PortWorld (object):
   """mode 'up': notifications arrive after the handshake completed.
      mode 'early': notifications arrive between the features reply and the barrier reply (POX defers
      them and applies them when the handshake completes); the view is examined after the handshake.
      mode 'same-read': the notifications follow the barrier reply that completes the handshake in the SAME
-     recv() chunk (TCP cuts the stream, not the switch): one Connection.read() sees them all."""
-  def __init__ (self, mode):
+     recv() chunk (TCP cuts the stream, not the switch): one Connection.read() sees them all.
+     mode 'hs': nothing has been received yet; hello, features replies (also repeated ones) and the barrier reply
+     are operations of the history like the notifications.  Reference: the view is the port list of the LAST
+     features reply with the notifications that FOLLOWED it applied; whatever preceded it is superseded."""
+  def __init__ (self, mode, lst=()):
     from mc.env import ControllerStack
     self.mode = mode
     self.cs = ControllerStack()
     self.i = self.cs.connect()
     self.con = self.cs.cons[self.i]
-    self.ref = dict((n, desc_fields(n, 0)) for n in ORIG)
-    self.orig = dict(self.ref)
     self.xid = 0x500
     self.bad = []
     self.n_msgs = 0
+    self.up = False
+    self.pending = []
+    self.lst_log = []
     self.cs.take_tx(self.i)
+    install_listeners(self.cs, self.con, lst, self.lst_log)
+    if mode == "hs":
+      self.phase = 0; self.ref = None; self.orig = None; self.barrier_xid = None
+      return
+    self.phase = 2
+    self.ref = dict((n, desc_fields(n, 0)) for n in ORIG)
+    self.orig = dict(self.ref)
     self.cs.feed(self.i, W.hello(1))
     self.cs.feed(self.i, S.features_reply(2, DPID, [desc_wire(self.orig[n]) for n in ORIG]))
     msgs, _ = W.split(self.cs.take_tx(self.i))
     bx = [W.parse_hdr(m)[3] for m in msgs if m[1] == W.BARRIER_REQUEST]
     if len(bx) != 1: raise RuntimeError("handshake: expected one barrier request, got %r" % (bx,))
     self.barrier_xid = bx[0]
-    self.up = False
-    self.pending = []
     if mode in ("up", "refeat"): self.finish()
+
+  def _feed (self, data, what):
+    try:
+      self.cs.feed(self.i, data)
+    except Exception as e:
+      self.bad.append(("%s:ports:read-raises:%s" % (PID, _site(e)), "Connection.read raised %r on %s" % (e, what)))
+
+  def hs_step (self, what, arg=None):
+    """One message of the handshake (mode 'hs')."""
+    if what == "hello":
+      self._feed(W.hello(1), "the hello"); self.phase = max(self.phase, 1)
+    elif what == "feat":
+      self.xid += 1
+      raw = dict(arg) if isinstance(arg, dict) else dict((n, desc_fields(n, v)) for n, v in FEATURE_SETS[arg].items())
+      self.orig = dict((n, expected(f)) for n, f in raw.items())
+      self.ref = dict(self.orig)
+      self.n_msgs += 1
+      self._feed(S.features_reply(self.xid, DPID, [desc_wire(raw[n]) for n in sorted(raw)]), "a features reply")
+      if not self.up:
+        msgs, _ = W.split(self.cs.take_tx(self.i))
+        bx = [W.parse_hdr(m)[3] for m in msgs if m[1] == W.BARRIER_REQUEST]
+        if bx: self.barrier_xid = bx[-1]          # a repeated features reply is answered with a new barrier request
+        self.phase = 2
+    elif what == "barrier":
+      if self.barrier_xid is None: raise RuntimeError("handshake: no barrier request seen")
+      self._feed(S.barrier_reply(self.barrier_xid), "the barrier reply")
+      self.up = True; self.phase = 3
+      if self.con.connect_time is None: raise RuntimeError("handshake did not complete")
+    else:
+      raise ValueError(what)
 
   def finish (self):
     if self.up: return
-    try:
-      self.cs.feed(self.i, S.barrier_reply(self.barrier_xid) + b"".join(self.pending))
-    except Exception as e:
-      self.bad.append(("%s:ports:read-raises:%s" % (PID, _site(e)), "Connection.read raised %r" % (e,)))
+    if self.mode == "hs":
+      if self.phase < 1: self.hs_step("hello")
+      if self.phase < 2: self.hs_step("feat", "same")
+      if self.phase < 3: self.hs_step("barrier")
+      return
+    self._feed(S.barrier_reply(self.barrier_xid) + b"".join(self.pending), "the barrier reply (+ coalesced notifications)")
     self.pending = []
-    self.up = True
+    self.up = True; self.phase = 3
     if self.con.connect_time is None:
       raise RuntimeError("handshake did not complete")
 
   def apply (self, op):
+    if self.mode == "hs" and op[0] in ("hello", "feat", "barrier"):
+      self.hs_step(op[0], op[1] if len(op) > 1 else None); return
     if op[0] == "read":
       self.finish(); self.check(); return
     if op[0] == "feat":
       self.finish()
-      self.xid += 1
-      self.orig = dict((n, desc_fields(n, v)) for n, v in FEATURE_SETS[op[1]].items())
-      self.ref = dict(self.orig)
-      self.n_msgs += 1
-      try:
-        self.cs.feed(self.i, S.features_reply(self.xid, DPID, [desc_wire(self.orig[n]) for n in sorted(self.orig)]))
-      except Exception as e:
-        self.bad.append(("%s:ports:read-raises:%s" % (PID, _site(e)), "Connection.read raised %r on a features reply" % (e,)))
+      self.hs_step("feat", op[1])
       return
     self.xid += 1
     n = op[1]
+    known = self.ref is not None              # before the first features reply there is no view to apply anything to
     if op[0] == "del":
-      f = self.ref.get(n, desc_fields(n, 0))
+      f = (self.ref or {}).get(n) or desc_fields(n, 0)
       m = S.port_status(self.xid, W.OFPPR_DELETE, desc_wire(f))
-      self.ref.pop(n, None)
+      if known: self.ref.pop(n, None)
     else:
-      f = desc_fields(n, op[2])
+      f = tuple(op[2]) if isinstance(op[2], (tuple, list)) else desc_fields(n, op[2])
       m = S.port_status(self.xid, W.OFPPR_ADD if op[0] == "add" else W.OFPPR_MODIFY, desc_wire(f))
-      self.ref[n] = f
+      if known: self.ref[n] = expected(f)
     self.n_msgs += 1
     if self.mode == "same-read" and not self.up:
       self.pending.append(m); return
-    try:
-      self.cs.feed(self.i, m)
-    except Exception as e:
-      self.bad.append(("%s:ports:read-raises:%s" % (PID, _site(e)), "Connection.read raised %r on a port-status message" % (e,)))
+    self._feed(m, "a port-status message")
+
+  def prekey (self):
+    """Hidden state while the handshake has not reached the (first) features reply."""
+    if self.mode != "hs" or self.phase >= 2: return None
+    return (hidden_port_state(self.con), _canon(self.con.ports, {}), _canon(self.con.original_ports, {}))
 
   def key (self):
     """Whole mutable state: every attribute of both real collections (caches included) + the reference."""
@@ -204,12 +324,20 @@ class PortWorld (object):
             sorted(self.ref.items()))
 
   # ---- oracle ---------------------------------------------------------------
-  def check (self):
-    """Compare both collections with the reference; returns (soft violations, observation)."""
-    soft = []; obs = []
-    for label, coll, ref in (("ports", self.con.ports, self.ref), ("original_ports", self.con.original_ports, self.orig)):
-      o = check_collection(label, coll, ref, soft)
-      obs.append(o)
+  def check (self, memo=None, key=None, extra=((), (), ())):
+    """Compare both collections with the reference; returns (soft violations, observation).
+    memo/key: the verdict on the two collections is a function of the canonical state (every attribute of both real
+    collections + the reference), which is what the state matching of the search relies on anyway; a worker
+    that meets the same canonical state again (by another history) reuses its verdict instead of repeating ~250 lookups."""
+    hit = memo.get(key) if memo is not None else None
+    if hit is not None:
+      soft, obs = list(hit[0]), list(hit[1])
+    else:
+      soft = []; obs = []
+      for label, coll, ref in (("ports", self.con.ports, self.ref), ("original_ports", self.con.original_ports, self.orig)):
+        o = check_collection(label, coll, ref, soft, extra)
+        obs.append(o)
+      if memo is not None: memo[key] = (tuple(soft), tuple(obs))
     ev = [(e[0], e[2].port, e[2].added, e[2].modified, e[2].deleted) for e in self.cs.events if e[0] == "PortStatus"]
     obs.append(("events", len(ev), ev[-1] if ev else None))
     return soft, obs
@@ -220,8 +348,9 @@ def _try (f):
   except Exception as e: return ("exc", e)
 
 
-def check_collection (label, coll, ref, soft):
-  """The whole mapping API of a PortCollection against a dict port_no -> description tuple."""
+def check_collection (label, coll, ref, soft, extra=((), (), ())):
+  """The whole mapping API of a PortCollection against a dict port_no -> description tuple.
+  extra: further (numbers, names, hardware addresses) to look up besides the universe's."""
   from pox.lib.addresses import EthAddr
   def fail (clause, what): soft.append(("%s:%s:%s" % (PID, label, clause), "%s: %s (reference: %s)" % (label, what, _fmt_ref(ref))))
   want_keys = sorted(ref)
@@ -300,31 +429,51 @@ def check_collection (label, coll, ref, soft):
       elif (d is None) is found or (found and _real_port(d) != gp):
         fail("lookup-by-%s:get-disagrees-with-getitem" % kind, "get(%r) gives %r while [%r] %s" % (kk, d, kk, "finds a port" if found else "raises"))
   by = lambda pos: (lambda k: next((f for f in ref.values() if f[pos] == k), None))
-  lookups("number", ALL_NUMS, lambda k: k, lambda k: ref.get(k))
-  lookups("name", ALL_NAMES, lambda k: k.decode("latin-1"), by(1))
-  lookups("hw", ALL_HW, lambda k: EthAddr(k), by(2))
+  lookups("number", ALL_NUMS + [k for k in extra[0] if k not in ALL_NUMS], lambda k: k, lambda k: ref.get(k))
+  lookups("name", ALL_NAMES + [k for k in extra[1] if k not in ALL_NAMES], lambda k: k.decode("latin-1"), by(1))
+  lookups("hw", ALL_HW + [k for k in extra[2] if k not in ALL_HW], lambda k: EthAddr(k), by(2))
+  # -- a copy of the view is the view
+  st, r = _try(lambda: coll.copy())
+  if st == "exc":
+    obs.append(("copy", "raises", type(r).__name__))
+    soft.append(("%s:port-collection:copy:raises:%s" % (PID, _site(r)), "%s.copy() raised %r" % (label, r)))
+  elif r is None:
+    obs.append(("copy", None))
+    soft.append(("%s:port-collection:copy:returns-none" % PID, "%s.copy() returns None instead of a collection holding %s" % (label, _fmt_ref(ref))))
+  else:
+    st, it = _try(lambda: sorted((k, _real_port(v)) for k, v in r.items()))
+    obs.append(("copy", st, it if st == "ok" else type(it).__name__))
+    if st == "exc" or it != sorted(ref.items()):
+      soft.append(("%s:port-collection:copy:wrong-content" % PID, "%s.copy() holds %r (reference: %s)" % (label, it, _fmt_ref(ref))))
   return (label, obs)
 
 
 def _fmt_ref (ref):
-  return "{" + ", ".join("%d: %s/%s%s" % (n, f[1].decode(), f[2].hex(":"), "/down" if f[4] else "") for n, f in sorted(ref.items())) + "}"
+  return "{" + ", ".join("%d: %s/%s%s" % (n, f[1].decode("ascii", "backslashreplace"), f[2].hex(":"), "/down" if f[4] else "") for n, f in sorted(ref.items())) + "}"
 
 
-def make_port_expand (mode, ndesc):
-  ops = port_ops(ndesc, mode)
+def make_port_expand (ent):
+  mode, ndesc, feats, lst = ent["mode"], ent["ndesc"], tuple(ent.get("feats") or ()), tuple(ent.get("lst") or ())
+  label = ent["label"]
+  extra = dict(part="ports", mode=mode)
+  if lst: extra["lst"] = [list(t) for t in lst]
+  memo = {}
   def expand (h):
-    w = PortWorld(mode)
+    w = PortWorld(mode, lst)
     for op in h: w.apply(op)
+    phase = w.phase
+    pre = w.prekey()              # hidden state of a handshake that has not seen its features reply yet
     w.finish()
-    key = w.key()                 # the state the history leads to, BEFORE this expansion's own reads
+    wk = w.key()
+    key = (label, phase, pre, wk)   # the state the history leads to, BEFORE this expansion's own reads
     k0 = w.content_key()
-    soft, obs = w.check()
+    soft, obs = w.check(memo, digest(wk))
     k1 = w.content_key()
     bad = list(w.bad)
     if k1 != k0:
       bad.append(("%s:ports:query-changes-collection" % PID, "reading the collections changed their content: %r -> %r" % (k0, k1)))
-    out = dict(obs=digest(obs), soft=soft, history=list(h), mode=mode)
-    return dict(key=key, ops=ops, bad=bad, out=out, replay_extra=dict(part="ports", mode=mode))
+    out = dict(obs=digest(obs), soft=soft, history=list(h), mode=label, extra=extra)
+    return dict(key=key, ops=port_ops(ndesc, mode, phase, feats), bad=bad, out=out, replay_extra=extra)
   return expand
 
 
@@ -336,37 +485,45 @@ class _Collector (Report):
     if isinstance(out, dict) and "soft" in out:
       for k, what in out["soft"]:
         self.violation(k, "after port-status history %r [%s]: %s" % (out["history"], out["mode"], what),
-                       dict(part="ports", mode=out["mode"], history=out["history"]))
+                       dict(history=out["history"], **out["extra"]))
       out = out["obs"]
     Report.outcome(self, (op, out))
 
 
+HS_FEATS = ("same", "other", "minus3", "plus4")
+
 def port_plan (cfg):
-  """(delivery mode, number of descriptions per port number)"""
-  return [("up", cfg.pick(3, N_DESC)), ("early", cfg.pick(2, N_DESC)), ("same-read", cfg.pick(2, N_DESC)),
-          ("refeat", cfg.pick(1, 2))]
+  """Searches: label, delivery mode, number of descriptions per port number [, feature sets, faulty listeners]"""
+  plan = [dict(label="up", mode="up", ndesc=cfg.pick(3, N_DESC)), dict(label="early", mode="early", ndesc=cfg.pick(2, N_DESC)),
+          dict(label="same-read", mode="same-read", ndesc=cfg.pick(2, N_DESC)), dict(label="refeat", mode="refeat", ndesc=cfg.pick(1, 2)),
+          dict(label="hs", mode="hs", ndesc=cfg.pick(1, 2), feats=HS_FEATS[:cfg.pick(2, 4)])]
+  for name, spec in port_listener_configs(cfg):
+    plan.append(dict(label="hs+" + name, mode="hs", ndesc=1, feats=HS_FEATS[:1], lst=spec))
+  return plan
 
 
 def run_ports (cfg, rep):
   depth = 12
   closure = {}
-  for mode, ndesc in port_plan(cfg):
+  for ent in port_plan(cfg):
+    label, mode, ndesc = ent["label"], ent["mode"], ent["ndesc"]
     col = _Collector(PID, rep.level)
-    exp = make_port_expand(mode, ndesc)
+    exp = make_port_expand(ent)
     r0 = exp(())
     for k, what in r0["out"]["soft"]:
-      col.violation(k, "right after the handshake [%s]: %s" % (mode, what), dict(part="ports", mode=mode, history=[]))
+      col.violation(k, "right after the handshake [%s]: %s" % (label, what), dict(history=[], **r0["replay_extra"]))
     for k, what in r0["bad"]:
-      col.violation(k, what, dict(part="ports", mode=mode, history=[]))
+      col.violation(k, what, dict(history=[], **r0["replay_extra"]))
     # a correct collection has at most (descriptions + deleted + untouched)^4 states; a defect that keeps
     # several versions of a port explodes the space - stop at 4x that bound and report the cap
-    n = bfs(exp, depth, col, workers=cfg.workers, seed=cfg.seed, max_states=4 * (ndesc + 2) ** len(NUMS) * (len(FEATURE_SETS) if mode == "refeat" else 1))
+    mult = len(FEATURE_SETS) if mode == "refeat" else 3 * len(ent["feats"]) if mode == "hs" else 1
+    n = bfs(exp, depth, col, workers=cfg.workers, seed=cfg.seed, max_states=4 * (ndesc + 2) ** len(NUMS) * mult)
     closed = col.extra.pop("frontier_at_bound", None) == 0 and not col.caps
     d = col.extra.pop("bfs_depth_completed", None)
-    closure[mode] = dict(states=n, closed=closed, levels=d, descriptions=ndesc)
+    closure[label] = dict(states=n, closed=closed, levels=d, descriptions=ndesc)
     if not closed and not col.caps:
-      col.caps.append("port view [%s]: reachable set not closed at depth %d" % (mode, depth))
-    col.sample(dict(part="ports", mode=mode, reachable_states=n, closed=closed, bfs_levels=d))
+      col.caps.append("port view [%s]: reachable set not closed at depth %d" % (label, depth))
+    col.sample(dict(part="ports", mode=label, reachable_states=n, closed=closed, bfs_levels=d))
     rep.merge(col)
   rep.extra["port_view_closure"] = closure
   return closure
@@ -374,12 +531,16 @@ def run_ports (cfg, rep):
 
 def replay_ports (data):
   mode = data.get("mode", "up")
-  w = PortWorld(mode)
-  lines = ["mode=%s features reply reports %s" % (mode, _fmt_ref(w.orig))]
+  lst = tuple(tuple(t) for t in data.get("lst", ()))
+  w = PortWorld(mode, lst)
+  lines = ["mode=%s%s" % (mode, " features reply reports %s" % _fmt_ref(w.orig) if w.orig is not None else " (nothing received yet)")]
+  if lst: lines.append("faulty listeners: %r" % (lst,))
   for op in data["history"]:
     op = tuple(op); w.apply(op)
-    lines.append(("read the whole view%.0s" if op[0] == "read" else "features reply %r -> reference %s" if op[0] == "feat"
-                  else "port-status %r -> reference %s") % (op, _fmt_ref(w.ref)))
+    rf = _fmt_ref(w.ref) if w.ref is not None else "none yet (no features reply so far)"
+    lines.append(("read the whole view%.0s%.0s" if op[0] == "read" else "%r%.0s" if op[0] in ("hello", "barrier")
+                  else "features reply %r -> reference %s" if op[0] == "feat"
+                  else "port-status %r -> reference %s") % (op, rf))
   w.finish()
   k0 = w.content_key()
   soft, obs = w.check()
@@ -389,6 +550,107 @@ def replay_ports (data):
   lines.append("real ports._ports=%r _masks=%r" % (sorted(_real_port(p) for p in c.ports._ports), sorted(c.ports._masks)))
   for k, what in list(w.bad) + soft: lines.append("  %s: %s" % (k, what))
   return bool(w.bad or soft), "\n".join(lines)
+
+
+# ======================================================================================
+# Part 1b: boundary values of the description fields (inputs)
+# ======================================================================================
+# the 16-byte name field as sent (struct pads it with NULs)
+NAME_FIELDS = (b"", b"a", b"fifteen-chars-xx", b"sixteen-chars-xxx"[:16], b"eth9\x00junk", b"\x00junk", b"eth9" + b"\x00" * 11 + b"x",
+               b"\xe9th\xff", b"br 0:1", b"2")
+HW_FIELDS = (bytes(6), b"\xff" * 6, bytes([1, 0, 0, 0, 0, 1]), bytes([0xfe, 0xff, 0xff, 0xff, 0xff, 0xff]))
+NO_FIELDS = (0, 255, 256, 0x7fff, 0x8000, W.OFPP_MAX, W.OFPP_LOCAL, 0xffff)
+FIELD_CARRIERS = ("feat0", "refeat", "add", "mod")
+FIELD_FOLLOWS = ("none", "replace", "delete")
+
+def field_cases (cfg):
+  sp = [("name", (4, nm[:16], _mac(4, 0), 0, 0)) for nm in NAME_FIELDS]
+  sp += [("hw", (4, b"eth4", hw, 0, 0)) for hw in HW_FIELDS]
+  sp += [("number", (no, b"ethx", _mac(9, 0), 0, 0)) for no in NO_FIELDS]
+  return [("field", kind, f, c, fo) for kind, f in sp for c in FIELD_CARRIERS for fo in FIELD_FOLLOWS]
+
+
+def run_field_case (case):
+  """The special description arrives in the handshake's features reply / a later features reply / an add / a modify
+  (of port 2 for name and hardware address values), optionally followed by an ordinary description for the same
+  port number or by its deletion; then the whole view is compared, looking up the special values as well."""
+  _, kind, f, carrier, follow = case
+  f = tuple(f)
+  if carrier == "mod" and kind != "number": f = (2,) + f[1:]
+  n = f[0]
+  base = dict((k, desc_fields(k, 0)) for k in ORIG)
+  listed = dict(base); listed[n] = f
+  if carrier == "feat0":
+    w = PortWorld("hs"); w.hs_step("hello"); w.hs_step("feat", listed)
+    if not w.bad: w.hs_step("barrier")
+  else:
+    w = PortWorld("up")
+    if carrier == "refeat": w.apply(("feat", listed))
+    else: w.apply((carrier, n, f))
+  if not w.bad:
+    if follow == "replace": w.apply(("mod", n, (n, b"plain", _mac(8, 0), 0, 0)))
+    elif follow == "delete": w.apply(("del", n))
+  raw_name = f[1]
+  names = [expected(f)[1], raw_name.replace(b"\x00", b" ")] + [x for x in raw_name.split(b"\x00") if x]
+  extra = ([n], sorted(set(names)), [f[2]])
+  soft = []; obs = None
+  if not w.bad:           # a message that made read() raise is reported as that; the connection is gone then
+    soft, obs = w.check(extra=extra)
+  return list(w.bad) + soft, digest(obs), w.n_msgs
+
+
+def _fields_worker (items):
+  from mc.env import boot
+  boot()
+  rep = Report(PID, "model_checking")
+  for idx, case in items:
+    bad, obs, n = run_field_case(case)
+    rep.evaluations += 1; rep.transitions += n
+    rep.outcome((case[1], case[3], case[4], obs))
+    for k, what in bad:
+      rep.violation(k, "%s: %s" % (describe_field(case), what), dict(part="fields", case=jsonable_case(case), idx=idx))
+      v = rep.violations[k]
+      if v["replay"].get("part") == "fields" and idx < v["replay"]["idx"]:
+        v["what"] = "%s: %s" % (describe_field(case), what); v["replay"] = dict(part="fields", case=jsonable_case(case), idx=idx)
+  return rep
+
+def jsonable_case (case):
+  _, kind, f, carrier, follow = case
+  return ["field", kind, [f[0], f[1].hex(), f[2].hex(), f[3], f[4]], carrier, follow]
+
+def case_from_json (c):
+  f = c[2]
+  return ("field", c[1], (f[0], bytes.fromhex(f[1]), bytes.fromhex(f[2]), f[3], f[4]), c[3], c[4])
+
+def describe_field (case):
+  _, kind, f, carrier, follow = case
+  how = {"feat0": "listed in the handshake's features reply", "refeat": "listed in a later features reply",
+         "add": "added by a port-status", "mod": "set by a port-status modify"}[carrier]
+  then = {"none": "", "replace": ", then given an ordinary description", "delete": ", then deleted"}[follow]
+  return "port %d with name field %r and hardware address %s %s%s" % (f[0], f[1], f[2].hex(":"), how, then)
+
+
+def run_fields (cfg, rep):
+  items = list(enumerate(field_cases(cfg)))
+  best = {}
+  for r in pmap(_fields_worker, split(items, max(1, cfg.workers) * 2), cfg.workers, seed=cfg.seed):
+    for k, v in r.violations.items():       # first failing case in enumeration order, independent of worker order
+      if v["replay"].get("part") == "fields" and (k not in best or v["replay"]["idx"] < best[k][0]):
+        best[k] = (v["replay"]["idx"], v["what"], v["replay"])
+    rep.merge(r)
+  for k, (idx, what, rp) in best.items():
+    if rep.violations[k]["replay"].get("part") == "fields":
+      rep.violations[k]["what"] = what; rep.violations[k]["replay"] = rp
+  rep.extra["field_cases"] = len(items)
+  rep.sample(dict(part="fields", case=describe_field(items[4 * len(FIELD_CARRIERS) * len(FIELD_FOLLOWS)][1])))
+  return len(items)
+
+
+def replay_fields (data):
+  case = case_from_json(data["case"])
+  bad, obs, n = run_field_case(case)
+  lines = [describe_field(case)] + ["  %s: %s" % (k, what) for k, what in bad]
+  return bool(bad), "\n".join(lines)
 
 
 # ======================================================================================
@@ -507,9 +769,17 @@ def make_b (variant, typ_a):
   raise ValueError(variant)
 
 
+def base_of (sc):
+  """("lst", typ, comp, listener spec, base family, base args...) -> (base family, typ, comp, base args...)"""
+  return (sc[4], sc[1], sc[2]) + tuple(sc[5:]) if sc[0] == "lst" else sc
+
+STATS_LEVELS = ("nexus", "con")
+STATS_EVKINDS = ("raw", "agg")
+
 def build (sc):
   """Scenario descriptor -> (steps, requests).  A step is (list of wire messages delivered by ONE read,
   tags) with tags = [("S", rid, is_last) | ("O", kind)], one per message."""
+  sc = base_of(sc)
   fam, typ, comp = sc[0], sc[1], tuple(sc[2])
   a = Req("A", typ, XID_A, comp, 0x10)
   ap = [([m], [("S", "A", last)]) for m, last in a.parts()]
@@ -573,7 +843,7 @@ def run_scenario (sc):
   cs.feed(i, S.features_reply(2, DPID, [desc_wire(desc_fields(n, 0)) for n in ORIG]))
   msgs, _ = W.split(cs.take_tx(i))
   bx = [W.parse_hdr(m)[3] for m in msgs if m[1] == W.BARRIER_REQUEST]
-  hs = sc[0] == "hs"              # the barrier reply that completes the handshake travels with the first step
+  hs = base_of(sc)[0] == "hs"     # the barrier reply that completes the handshake travels with the first step
   if not hs:
     cs.feed(i, S.barrier_reply(bx[0]))
     if con.connect_time is None: raise RuntimeError("handshake did not complete")
@@ -581,6 +851,13 @@ def run_scenario (sc):
   conev = []
   for name in STATS_EVENTS:
     con.addListener(getattr(cs.ofm, name), (lambda nm: (lambda e: conev.append((nm, e))))(name))
+  # a faulty listener (halting / raising) for the raw or the aggregated events, on the nexus or on the connection;
+  # registered after the recording listeners, which therefore still see an event it halts
+  llog = []
+  if sc[0] == "lst":
+    level, evkind, fault, occ = sc[3]
+    names = ("RawStatsReply",) if evkind == "raw" else STATS_EVENTS
+    install_listeners(cs, con, [(level, nm, fault, occ) for nm in names], llog)
   # note exceptions raised inside the reassembly (Connection.read swallows and logs them)
   raised = []
   real = con._incoming_stats_reply
@@ -598,7 +875,7 @@ def run_scenario (sc):
   def fail (clause, what): bad.append(("%s:stats:%s" % (PID, clause), what))
 
   for msgs, tags in steps:
-    n0 = len(cs.events); c0 = len(conev); r0 = len(raised)
+    n0 = len(cs.events); c0 = len(conev); r0 = len(raised); l0 = len(llog)
     msgs = [S.barrier_reply(bx[0]) if m is None else m for m in msgs]
     try:
       cs.feed(i, b"".join(msgs))
@@ -612,8 +889,17 @@ def run_scenario (sc):
     cause = ("handler-raised:" + raised[r0]) if len(raised) > r0 else "no-exception"
     finals = [t[1] for t in tags if t[0] == "S" and t[2]]
     obs.append((tuple(t[:2] for t in tags), [nm for nm, e in new], len(newc), cause))
-    if [nm for nm, e in new] != [nm for nm, e in newc] or any(x[1].stats is not y[1].stats for x, y in zip(new, newc)):
-      fail("connection-level-events-differ", "nexus raised %r, the connection raised %r" % ([nm for nm, e in new], [nm for nm, e in newc]))
+    # POX does not raise an event on the connection when a nexus-level listener halted it: the statement is silent there
+    halted = [t[3] for t in llog[l0:] if t[0] == "nexus" and t[2] in ("halt", "halt-attr") and t[3] in STATS_EVENTS]
+    want_c = [nm for nm, e in new if nm not in halted]
+    if [nm for nm, e in newc] != want_c:
+      fail("connection-level-events-differ", "nexus raised %r, the connection raised %r%s"
+           % ([nm for nm, e in new], [nm for nm, e in newc], " (a nexus-level listener halted %r)" % halted if halted else ""))
+    else:
+      byname = dict((nm, e) for nm, e in new)
+      for nm, e in newc:
+        if _stats_digest(nm, e) != _stats_digest(nm, byname[nm]):
+          fail("connection-level-event-content-differs", "%s on the connection carries other entries than on the nexus" % nm)
     if not finals:
       if new:
         anyS = any(t[0] == "S" for t in tags)
@@ -666,6 +952,19 @@ def run_scenario (sc):
   return bad, obs, n_msgs
 
 
+TYPE_OF_EVENT = dict((v, k) for k, v in EVENT_OF.items())
+
+def _stats_digest (nm, ev):
+  """Content of an aggregated event: its entries by field values, in order, and the parts it lists."""
+  typ = TYPE_OF_EVENT[nm]
+  try:
+    body = [view(typ, o) for o in ev.stats] if typ in LIST_TYPES else [view(typ, ev.stats)]
+  except Exception as e:
+    body = ("unreadable", type(e).__name__)
+  parts = [(p.xid, p.type) for p in ev.ofp] if isinstance(ev.ofp, list) else (ev.ofp.xid, ev.ofp.type)
+  return digest((body, parts))
+
+
 def _short (typ, g):
   return g.get("cookie", g.get("queue_id", g.get("port_no", g.get("table_id", g.get("flow_count", "desc"))))) if isinstance(g, dict) else g
 
@@ -689,9 +988,31 @@ def scenarios (cfg):
           for gap in range(1, k):
             for v in B_VARIANTS:
               out.append(("abort", typ, comp, v, gap)); out.append(("trunc", typ, comp, v, gap))
+  # faulty listeners: {nexus, connection} x {raw stats event, aggregated events} x {halts, raises} - on every invocation, and
+  # (raw events: one per part) on the i-th invocation only; part by part, and with a complete reply B in the middle of A
+  faults = FAULTS if not cfg.quick else ("halt", "raise")
+  kocc = cfg.pick(3, MAX_PARTS); kab = cfg.pick(3, 4); nab = cfg.pick(2, 3)
+  for typ in LIST_TYPES:
+    for n in range(nmax + 1):
+      for k in range(1, MAX_PARTS + 1):
+        for comp in weak_compositions(n, k):
+          for level in STATS_LEVELS:
+            for fault in faults:
+              for evkind in STATS_EVKINDS:
+                out.append(("lst", typ, comp, (level, evkind, fault, 0), "single"))
+                if 1 < k <= kab and n <= nab:
+                  for v in ("same-type", "other-type-2parts"):
+                    for gap in range(1, k):
+                      for occ in (0, 1):
+                        out.append(("lst", typ, comp, (level, evkind, fault, occ), "abort", v, gap))
+              if 1 < k <= kocc:
+                for occ in range(1, k + 1): out.append(("lst", typ, comp, (level, "raw", fault, occ), "single"))
   # DESC and AGGREGATE replies are always a single part: alone and with another message around them
   for typ in (W.OFPST_DESC, W.OFPST_AGGREGATE):
     out.append(("single", typ, (1,))); out.append(("hs", typ, (1,), 1))
+    for level in STATS_LEVELS:
+      for fault in faults:
+        for evkind in STATS_EVKINDS: out.append(("lst", typ, (1,), (level, evkind, fault, 0), "single"))
     for pos in range(2):
       for kind in OTHERS: out.append(("inter", typ, (1,), pos, kind))
   return out
@@ -704,7 +1025,7 @@ def _stats_worker (items):
   for sc in items:
     bad, obs, n = run_scenario(sc)
     rep.evaluations += 1; rep.transitions += n
-    rep.outcome((sc[0], sc[1], obs))
+    rep.outcome((sc[0], sc[1], sc[3] if sc[0] == "lst" else None, obs))
     for k, what in bad:
       rep.violation(k, "scenario %r: %s" % (describe(sc), what), dict(part="stats", scenario=list(sc)))
       v = rep.violations[k]
@@ -715,10 +1036,16 @@ def _stats_worker (items):
 
 def _rank (replay):
   sc = replay["scenario"]; comp = sc[2]
-  return (len(comp), 0 if all(comp) else 1, sum(comp), json.dumps(sc))
+  return (len(comp), 0 if all(comp) else 1, sum(comp), len(sc), json.dumps(sc))
 
 
 def describe (sc):
+  if sc[0] == "lst":
+    level, evkind, fault, occ = sc[3]
+    return describe(base_of(sc)) + "; a listener on the %s for the %s that %s %s" % (
+      "nexus" if level == "nexus" else "connection", "raw stats event" if evkind == "raw" else "aggregated events",
+      {"halt": "halts the event (EventHalt)", "halt-attr": "sets event.halt", "raise": "raises"}[fault],
+      "every time" if not occ else "on its invocation no. %d" % occ)
   fam, typ, comp = sc[0], sc[1], tuple(sc[2])
   s = "%s %s reply A cut into parts of %r entries" % (fam, TNAME[typ], comp)
   if fam == "hs": s += ", the first %d part(s) in the same read as the barrier reply that completes the handshake" % sc[3]
@@ -767,9 +1094,10 @@ def run (cfg):
   boot()
   rep = Report(PID, "model_checking")
   nmax = cfg.pick(3, 4)
-  plan = dict(port_plan(cfg))
+  plan = dict((e["label"], e["ndesc"]) for e in port_plan(cfg))
   only = getattr(cfg, "only", None)
   if only in (None, "ports"): run_ports(cfg, rep)
+  if only in (None, "fields"): run_fields(cfg, rep)
   if only in (None, "stats"): run_stats(cfg, rep)
   rep.rule = (
     "PORT VIEW: breadth-first search with state matching to CLOSURE (empty frontier) over port-status histories on a real "
@@ -778,15 +1106,28 @@ def run (cfg):
     "with 'read the whole view' as an operation of its own (reads may populate caches), and, separately, between features reply and "
     "barrier reply (deferred by POX, k=%d) and in the SAME read() as the barrier reply that completes the handshake (k=%d) "
     "and, with k=%d, together with later features replies {same ports, port 3 gone, port 4 new, ports {2 renamed, 4}} as operations "
-    "(reference: the view after a features reply is exactly its port list); canonical "
+    "(reference: the view after a features reply is exactly its port list); and with the HANDSHAKE's own messages as operations "
+    "(mode hs, k=%d: from a connection that has received nothing, {hello, features reply with one of %d port sets - also repeated -, "
+    "barrier reply} and the notifications in every phase; reference: the last features reply's ports with the notifications that "
+    "FOLLOWED it; before the first features reply every attribute of the connection / handshake handler that holds port descriptions "
+    "or port-status messages is part of the state key), the latter repeated with faulty listeners installed (%s: listeners on "
+    "{nexus, connection} for PortStatus/ConnectionUp/FeaturesReceived/BarrierIn/ConnectionHandshakeComplete that halt the event or raise); canonical "
     "state = every attribute of the real connection.ports and original_ports objects (sets, masks, any index/cache, aliasing) + "
     "reference dict; in every state len/keys/iter/iterkeys/values/itervalues/items/iteritems and "
     "[] / in / has_key / get by 7 numbers, 10 names and 9 hardware addresses (stale ones included) on ports and original_ports "
-    "are compared with a dict.  STATISTICS: for FLOW/TABLE/PORT/QUEUE every weak composition of n<=%d fingerprinted entries "
+    "are compared with a dict, and copy() must hold the same items.  FIELD VALUES: %d cases = {10 name fields (empty, 1, 15, 16 bytes "
+    "without NUL, bytes after the first NUL, high bytes, ...), 4 hardware addresses (all-zero, broadcast, multicast, ...), 8 port numbers "
+    "(0, 255, 256, 2^15-1, 2^15, OFPP_MAX, OFPP_LOCAL, 0xffff)} x carried by {handshake features reply, later features reply, add, modify} "
+    "x followed by {nothing, an ordinary description for that port, its deletion}.  STATISTICS: for FLOW/TABLE/PORT/QUEUE every weak composition of n<=%d fingerprinted entries "
     "into 1..6 parts (MORE on all but the last), delivered part by part, in one read, and with the first j parts in the same read as the handshake-completing barrier reply; one echo/port-status/barrier message at "
     "every position and one in every gap; a second reply B (same/other type, same/other xid, 1-2 parts, DESC, AGGREGATE) before "
-    "and after; B complete after part i of A for every i (A1 B A2) and after an A that never finishes; distinct = "
-    "(family, stats type, per-delivery event trace)" % (plan["up"], plan["early"], plan["same-read"], plan["refeat"], nmax))
+    "and after; B complete after part i of A for every i (A1 B A2) and after an A that never finishes; and (family lst) with a faulty "
+    "listener installed: {nexus, connection} x {RawStatsReply, the aggregated events} x {%s} x {every invocation, only the i-th} "
+    "for the part-by-part delivery of every composition and for A1 B A2 (<=%d parts, n<=%d): the nexus-level aggregated event must "
+    "still fire exactly once with all entries; distinct = (family, stats type, listener, per-delivery event trace)"
+    % (plan["up"], plan["early"], plan["same-read"], plan["refeat"], plan["hs"], len(HS_FEATS[:cfg.pick(2, 4)]),
+       ", ".join(n for n, _ in port_listener_configs(cfg)) if cfg.quick else "3 combined configurations and each (level, event, fault) alone",
+       len(field_cases(cfg)), nmax, "halts, raises" if cfg.quick else "halts by return value, sets event.halt, raises", cfg.pick(3, 4), cfg.pick(2, 3)))
   rep.bound = dict(port_numbers=list(NUMS), descriptions=plan, port_history_length="unbounded (closure)",
                    stats_entries_max=nmax, stats_parts_max=MAX_PARTS)
   rep.assumptions = [
@@ -799,6 +1140,11 @@ def run (cfg):
     "for a reply interrupted by another request's reply the specification gives no reassembly rule: its event may fire "
     "at most once, at its final part, with its own entries in order; the interrupting complete reply must be delivered exactly",
     "every scenario runs on a fresh connection; each message is its own read() except in the coalesced and hs families",
+    "a name field is a C string: it ends at its first NUL byte (OpenFlow 1.0: 'Null-terminated'), whatever follows",
+    "port-status messages that PRECEDE a features reply are superseded by it (the reply is the newer, complete report)",
+    "when a nexus-level listener halts an aggregated event POX does not raise it on the connection; the oracle then demands "
+    "nothing of the connection-level event (the statement is silent), the nexus-level event is still demanded exactly once",
+    "the verdict on the two collections is computed once per canonical state and worker (it is a function of the state key)",
   ]
   return rep
 
@@ -807,4 +1153,5 @@ def replay (cfg, data):
   from mc.env import boot
   boot()
   if data.get("part") == "stats": return replay_stats(data)
+  if data.get("part") == "fields": return replay_fields(data)
   return replay_ports(data)
